@@ -469,8 +469,8 @@ def run_case(cd: CaseDef, params, case_id):
                 if cd.replay is not None:
                     try:
                         rr = cd.replay(o["model"], params, name.split(":", 1)[1], o["info"])
-                    except Exception:
-                        rr = {"violates": None, "detail": "replay adapter crashed:\n" + traceback.format_exc()}
+                    except Exception as e:
+                        rr = classify_replay_exception(e)
                     o["replay"] = _jsonable(rr)
                 else:
                     o["replay"] = {"violates": None, "detail": "no replay adapter for this contract"}
@@ -482,6 +482,19 @@ def run_case(cd: CaseDef, params, case_id):
         out["crash"] = traceback.format_exc()
     out["wall_s"] = round(time.time() - t0, 3)
     return out
+
+
+def classify_replay_exception(e):
+    """an exception while replaying: raised inside the code under test (a frame in $VERIF_REPO/gpytorch) = the real
+    code fails on this input (a violation with the traceback as witness); anything else = adapter defect (undecided)"""
+    tb = traceback.extract_tb(e.__traceback__)
+    root = os.path.join(REPO, "gpytorch")
+    frames = [fr for fr in tb if fr.filename.startswith(root)]
+    text = "".join(traceback.format_exception(type(e), e, e.__traceback__))[-1800:]
+    if frames:
+        fr = frames[-1]
+        return {"violates": True, "detail": f"the real code raised {type(e).__name__}: {str(e)[:200]} at {os.path.relpath(fr.filename, REPO)}:{fr.lineno} ({fr.name})\n{text}"}
+    return {"violates": None, "detail": "replay adapter crashed:\n" + text}
 
 
 def _vc_text(ob):
